@@ -415,6 +415,20 @@ fn gen_c04(seed: u64) -> Plan {
                 .collect();
             b.plan.knobs.check_point_interval = pick(&mut b.rng, &ok);
         }
+        if b.rng.chance(1, 3) {
+            // the fork arrives in the middle of the work: fresh blocks shortly before it, and
+            // answers (filters, proofs, bodies) getting lost, so that matched-blocks records are
+            // pending above the fork point when the switch happens
+            let burst_at = t.saturating_sub(b.rng.range(300, 4_000));
+            add(&mut b.plan, burst_at, Action::Mine { branch: main, n: b.rng.range(2, 8) });
+            for p in 0..np {
+                if b.rng.chance(2, 3) {
+                    let at = burst_at + b.rng.range(0, 2_000);
+                    add(&mut b.plan, at, Action::LoseAnswers { peer: p, n: b.rng.range(1, 3) });
+                }
+            }
+            b.plan.chain.max_txs = b.plan.chain.max_txs.max(2);
+        }
         if b.rng.chance(1, 6) {
             add(&mut b.plan, t.saturating_sub(b.rng.range(100, 3_000)), Action::Restart);
         }
@@ -748,6 +762,18 @@ fn gen_byz(seed: u64, prop: &str) -> Plan {
         // deviating peer may answer "as seen from" that branch
         let (back, n) = (b.rng.range(1, 6), b.rng.range(2, 7));
         add(&mut b.plan, b.rng.range(0, 900), Action::SideFork { src: 0, back, n });
+        // the deviating peer plants side-branch block hashes into filter batches and pushes
+        // their bodies later
+        if b.rng.chance(2, 3) {
+            for _ in 0..b.rng.range(1, 6) {
+                let at = b.rng.range(3_000, until);
+                add(&mut b.plan, at, Action::Inject { peer: 0, spec: InjectSpec { seed: b.rng.next_u64(), kind: 101 } });
+                for _ in 0..b.rng.range(1, 4) {
+                    let later = at + b.rng.range(200, 20_000);
+                    add(&mut b.plan, later, Action::Inject { peer: 0, spec: InjectSpec { seed: b.rng.next_u64(), kind: 102 } });
+                }
+            }
+        }
         for _ in 0..b.rng.range(1, 4) {
             let at = b.rng.range(1_000, until);
             // one of the side branch's own blocks below its tip (clamped to the branch at run time)
